@@ -90,7 +90,7 @@ contract(M + "Step.run", props=P,
              "capture-controller-invariant": "cinv(runner.capture_controller, sys)",
              "context-attributes-are-model-elements":
                  "(G_ctx_scenario is ABSENT or typeof_is(G_ctx_scenario, 'Scenario')) and "
-                 "(is_none(G_ctx_feature) or typeof_is(G_ctx_feature, 'Feature'))",
+                 "(is_none(G_ctx_feature) or typeof_is(G_ctx_feature, 'Feature')) and (G_ctx_rule is ABSENT or typeof_is(G_ctx_rule, 'Rule'))",
              "not-capturing-at-entry": "is_none(runner.capture_controller.old_stdout) and is_none(runner.capture_controller.old_stderr)",
              "step-is-not-an-all-hook-target": "True",
          },
